@@ -6,7 +6,8 @@ From PM Require Import Model.Prelude Model.Domain Model.Constraint Model.Automat
   Model.DomString Model.DomMatrix Cert.LabCheck Cert.CharCert Cert.ExampleAut
   Proofs.RunSound Proofs.LawfulDomains Proofs.BindMapMatrixProofs
   Spec.Occ Proofs.OccProofs Proofs.CellsProofs Proofs.OccString Proofs.OccMatrix
-  Model.DomPGKeys Model.DomPG Model.DomPGPattern Cert.PGCert Proofs.PGLawful Proofs.PGEmbed.
+  Model.DomPGKeys Model.DomPG Model.DomPGPattern Cert.PGCert Proofs.PGLawful Proofs.PGEmbed
+  Model.BindMaps Model.DomTable Proofs.TableLawful.
 
 (** generic over the domain: lawful binding maps, any host, any execution *)
 Theorem c01_run_sound :
@@ -156,3 +157,18 @@ Theorem c01_portgraph_embedding :
           /\ Dist m nk.
 Proof. exact pg_run_embeds. Qed.
 Print Assumptions c01_portgraph_embedding.
+
+(** The harness-defined table domain (multi-valued keys, shared prerequisites,
+    exotic constraint trees with labels on the root and on inner nodes, extra
+    required bindings): same statement; lab_ok is evaluated on every automaton the
+    builder produces for it (the tab sub-checks). *)
+Theorem c01_table_run_sound :
+  forall sch (A : automaton N tpred) (L : labelling) (cs : list (list (constraint N tpred))),
+    lab_ok (table_dom sch) (fun _ => true) t_atoms A L cs = true ->
+    forall (h : thost) (fuel : nat) (ms : list (N * tmap)),
+      run (table_dom sch) fuel A h = Ok ms ->
+      forall pm, In pm ms ->
+        exists cp, nth_error cs (N.to_nat (fst pm)) = Some cp
+                   /\ forall c, In c cp -> holds (table_dom sch) h c (snd pm).
+Proof. exact table_run_sound. Qed.
+Print Assumptions c01_table_run_sound.
